@@ -751,6 +751,7 @@ pub fn run(cfg: &Cfg) -> i32 {
     add_kind!(BddK, 1);
     add_kind!(BcddK, 2);
     add_kind!(ZbddK, 3);
+    crate::fzrun::add_jobs(cfg, "C12", &mut jobs, &mut names);
     let outs = run_jobs(&mut jobs, cfg.par, cfg.t(600, 7200));
     drop(jobs);
     let mut total = Report::default();
@@ -760,7 +761,7 @@ pub fn run(cfg: &Cfg) -> i32 {
         &total,
         Meta {
             level: "exploration",
-            rule: "sat_count: all 256 three-variable functions x 6 orders x {BDD,BCDD,ZBDD} with vars in {n, n+1, 73, 1100, 63, 64, 127, 128} (ZBDD: vars = num_vars, its documented domain) for Saturating<u64>, Saturating<u128>, F64 and Natural, one SatCountCache per type shared across all handles and alternating vars, cache_all on/off; then half of the functions are dropped, gc + churn + reorder recycle node ids and everything is counted again with the same caches, then once more across a plain gc. Random functions over up to 16 variables built as f(x0..x9) AND h(x10..x15) with count |f|*|h|. Oracle: popcount * 2^(vars-n) as an independent big natural (exact for integers when vars < BITS else the saturation marker, constant false may report 0; F64 within 2^-45 relative / inf beyond 2^1024; Natural exact via mantissa/exponent decoding and decimal text). Natural alone: 49 boundary values (0, 1, 2^k-1, 2^k, 2^k+1 around 32/64/128/192/256 bits, multi-digit patterns) - all pairs for add/eq/cmp/hash, shifts by {0,1,63,64,65,200}, conversions from/to u32/u64/u128/f64 (correct rounding), Display/Binary/Octal/LowerHex/UpperHex with width/fill/#/0/+ flags (expected text via Formatter::pad_integral on independently computed digits); random operands up to 512 bits and op sequences; NaN exactly for inexact right shift and exponent overflow. Non-trivial = count served from a cache already holding entries of other handles / an earlier gc epoch / another vars; Natural operands of different digit counts or a carry into a new digit.",
+            rule: "sat_count: all 256 three-variable functions x 6 orders x {BDD,BCDD,ZBDD} with vars in {n, n+1, 73, 1100, 63, 64, 127, 128} (ZBDD: vars = num_vars, its documented domain) for Saturating<u64>, Saturating<u128>, F64 and Natural, one SatCountCache per type shared across all handles and alternating vars, cache_all on/off; then half of the functions are dropped, gc + churn + reorder recycle node ids and everything is counted again with the same caches, then once more across a plain gc. Random functions over up to 16 variables built as f(x0..x9) AND h(x10..x15) with count |f|*|h|. Oracle: popcount * 2^(vars-n) as an independent big natural (exact for integers when vars < BITS else the saturation marker, constant false may report 0; F64 within 2^-45 relative / inf beyond 2^1024; Natural exact via mantissa/exponent decoding and decimal text). Natural alone: 49 boundary values (0, 1, 2^k-1, 2^k, 2^k+1 around 32/64/128/192/256 bits, multi-digit patterns) - all pairs for add/eq/cmp/hash, shifts by {0,1,63,64,65,200}, conversions from/to u32/u64/u128/f64 (correct rounding), Display/Binary/Octal/LowerHex/UpperHex with width/fill/#/0/+ flags (expected text via Formatter::pad_integral on independently computed digits); random operands up to 512 bits and op sequences; NaN exactly for inexact right shift and exponent overflow. Non-trivial = count served from a cache already holding entries of other handles / an earlier gc epoch / another vars; Natural operands of different digit counts or a carry into a new digit. COVERAGE-GUIDED FUZZING: the libFuzzer targets of this property (harness/fuzz, entry points and decoders in fz.rs, the same oracle as above, built with AddressSanitizer, debug assertions and overflow checks) - quick tier: every committed seed and regression input is replayed through the in-process entry point; thorough tier: 3 libFuzzer campaigns per target with -runs=N -seed=f(VERIF_SEED) on fresh corpora initialised from the seeds (evaluations = executions, non-trivial = inputs kept for new coverage).",
             assumptions: vec!["ZBDD sat_count is only defined for vars = number of manager variables".into(), "dashu (used by Natural's Display) is not used as oracle".into()],
             extra: json!({}),
         },
